@@ -46,6 +46,9 @@ class Bind:
         if idc == "2^31": return 2 ** 31
         if idc == "2^32-1": return 2 ** 32 - 1
         if idc == "2^32-256": return 2 ** 32 - 256
+        if idc.startswith("wrap"):
+            sc, _, rest = idc[4:].partition("."); j, _, i = rest.partition("+")
+            return -((-int(j) * 2 ** 32) // int(sc)) + int(i)
         if idc.startswith("256+"):
             i = self.fidx[view].get(idc[4:])
             return None if i is None else 256 + v["fields"][i]["id"]
